@@ -132,7 +132,11 @@ func genRecord(r *rng, depth int) []byte {
 	switch k := r.intn(6); {
 	case k == 0:
 		b = protowire.AppendTag(b, num, protowire.VarintType)
-		b = protowire.AppendVarint(b, r.u64()>>uint(r.intn(64)))
+		if r.intn(3) == 0 { // 9- and 10-byte varints (values >= 2^56, >= 2^63)
+			b = protowire.AppendVarint(b, []uint64{1 << 63, 1<<64 - 1, 1<<63 - 1, 1 << 56, 1<<63 | r.u64(), uint64(-int64(1 + r.intn(1000)))}[r.intn(6)])
+		} else {
+			b = protowire.AppendVarint(b, r.u64()>>uint(r.intn(64)))
+		}
 	case k == 1:
 		b = protowire.AppendTag(b, num, protowire.Fixed64Type)
 		b = protowire.AppendFixed64(b, r.u64())
